@@ -7,8 +7,22 @@ using refosc::Val;
 
 struct Case {
   Msg m;
-  template <class A> void io(A &a) { a(m); }
-  std::string describe() const { return m.describe(); }
+  // second message written over the first in the same storage (same address and tag count, other tags / sizes),
+  // and the order in which arguments are read by index from each: accessor results may not depend on earlier reads
+  bool reuse = false;
+  Msg m2;
+  std::vector<int> order1, order2;
+  template <class A> void io(A &a) { a(m); if (a.more()) a(reuse)(m2)(order1)(order2); }   // optional trailing fields (older case files end after m)
+  std::string describe() const {
+    std::string d = m.describe();
+    if (reuse) {
+      d += " | then in the same storage: " + m2.describe() + " | read order";
+      for (int i : order1) d += " " + std::to_string(i);
+      d += " /";
+      for (int i : order2) d += " " + std::to_string(i);
+    }
+    return d;
+  }
 };
 
 const char *vf_property() { return "C01"; }
@@ -17,6 +31,24 @@ void vf_init() {}
 Case vf_generate() {
   Case c;
   c.m = mg::gen_msg(40, 4200, 64);
+  if (!c.m.vals.empty() && vf::chance(50)) {
+    c.reuse = true;
+    c.m2.address = c.m.address;
+    for (char t : c.m.tags) c.m2.tags += (t == '[' || t == ']' || vf::chance(50)) ? t : mg::TAGS17[vf::pickn(15)];
+    mg::fill_vals(c.m2, 300);
+    auto order = [&](size_t n) {
+      std::vector<int> o;
+      switch (vf::pickn(4)) {
+        case 0: for (size_t i = 0; i < n; i++) o.push_back((int)i); break;
+        case 1: for (size_t i = n; i-- > 0;) o.push_back((int)i); break;
+        case 2: o.push_back((int)n - 1); break;
+        default: { int k = vf::pick<int>(1, (int)std::min<size_t>(2 * n, 24)); for (int i = 0; i < k; i++) o.push_back(vf::pickn((int)n)); }
+      }
+      return o;
+    };
+    c.order1 = order(c.m.vals.size());
+    c.order2 = order(c.m2.vals.size());
+  }
   return c;
 }
 
@@ -192,7 +224,30 @@ std::string run_msg(const Msg &m, vf::Ctx &ctx) {
   return "";
 }
 
-std::string vf_run(const Case &c, vf::Ctx &ctx) { return run_msg(c.m, ctx); }
+std::string vf_run(const Case &c, vf::Ctx &ctx) {
+  std::string e = run_msg(c.m, ctx);
+  if (!e.empty() || !c.reuse) return e;
+  const std::string r1 = c.m.ref(), r2 = c.m2.ref();
+  const size_t cap = std::max(r1.size(), r2.size());
+  std::unique_ptr<char[]> hb(new char[cap]);
+  char *buf = hb.get();
+  auto read = [&](const Msg &m, const std::string &ref, const std::vector<int> &order, const char *what) -> std::string {
+    memset(buf, 0, cap);
+    memcpy(buf, ref.data(), ref.size());
+    for (int i : order) {
+      if (i < 0 || (size_t)i >= m.vals.size()) continue;
+      char t = rtosc_type(buf, (unsigned)i);
+      rtosc_arg_t a = rtosc_argument(buf, (unsigned)i);
+      std::string r = check_val(what, (size_t)i, m.vals[(size_t)i], t, a, buf, ref.size());
+      if (!r.empty()) return r;
+    }
+    return "";
+  };
+  if (!(e = read(c.m, r1, c.order1, "rtosc_argument (first message in the storage)")).empty()) return e;
+  if (!(e = read(c.m2, r2, c.order2, "rtosc_argument (second message in the same storage)")).empty()) return e;
+  ctx.count("reuse.second_message_in_same_storage");
+  return "";
+}
 
 // exhaustive: every tag string over the 17 symbols up to length budget (2 or 3) x 4 value profiles x 4 address lengths
 static Val profile_val(char t, int profile, uint64_t salt) {
